@@ -59,6 +59,9 @@ PRIMS['remaining'] = p_remaining
 def p_dec(I, args, kwargs, node):
     """spec: dec(encoding, data) = data.decode(encoding)"""
     enc, data = args
+    from .values import VOpt
+    if isinstance(data, VOpt):
+        data = data.val        # spec-side: the group is known to take part where this is used
     if _m.is_concrete(enc):
         _m.decode_axioms(I, _m.concretise(enc), data.t)
     return VStr(_m.f_decode(_m.strterm(enc), data.t))
@@ -290,6 +293,20 @@ def p_re_group(I, args, kwargs, node):
     from .values import VOpt
     g = z3.IntVal(_m.concretise(args[3]))
     return _m.match_group_value(m, g)
+
+
+def p_re_pos(which):
+    def prim(I, args, kwargs, node):
+        """re_start / re_end('PATTERN_GLOBAL', how, s, k): span of group k of pattern.<how>(s)"""
+        pat = _pat(I, args[0])
+        how = _m.concretise(args[1])
+        m = _m.new_match(I, _m.strterm(args[2]), pat, how)
+        g = z3.IntVal(_m.concretise(args[3]))
+        return VInt((m.start if which == 'start' else m.end)(g))
+    return prim
+
+
+PRIMS.update({'re_start': p_re_pos('start'), 're_end': p_re_pos('end')})
 
 
 def p_ascii_ignore(I, args, kwargs, node):
